@@ -403,6 +403,65 @@ func checkC17(c *Ctx, r *Report) {
 				}
 			}
 		}
+		// the remaining-edge test holds for every kind argument: neither the test that leaves the loop
+		// nor an `if` around the loop may be conditioned on the *SymbolEdgeKind parameter (C17-m20:
+		// `if kind == nil && strings.HasSuffix(k, suffix)` can never fire after a kind-specific removal)
+		if guardFound && v2 == "" {
+			for _, rf := range w.astRegion(fi) {
+				kindParams := map[types.Object]bool{}
+				ast.Inspect(rf.Decl, func(n ast.Node) bool {
+					if ft, ok := n.(*ast.FuncType); ok && ft.Params != nil {
+						for _, f := range ft.Params.List {
+							for _, nm := range f.Names {
+								if ob := fi.Pkg.TypesInfo.Defs[nm]; ob != nil && strings.HasSuffix(ob.Type().String(), "SymbolEdgeKind") {
+									kindParams[ob] = true
+								}
+							}
+						}
+					}
+					return true
+				})
+				mentionsKind := func(e ast.Node) bool {
+					return e != nil && containsNode(e, func(m ast.Node) bool {
+						id, ok := m.(*ast.Ident)
+						return ok && kindParams[fi.Pkg.TypesInfo.Uses[id]]
+					})
+				}
+				var stack []ast.Node
+				ast.Inspect(rf.Decl, func(n ast.Node) bool {
+					if n == nil {
+						stack = stack[:len(stack)-1]
+						return true
+					}
+					stack = append(stack, n)
+					rs, ok := n.(*ast.RangeStmt)
+					if !ok {
+						return true
+					}
+					isGuard := false
+					for _, gp := range guardPos {
+						if gp == w.hostPos(fi, rs) {
+							isGuard = true
+						}
+					}
+					if !isGuard {
+						return true
+					}
+					for _, anc := range stack[:len(stack)-1] {
+						if is, ok := anc.(*ast.IfStmt); ok && mentionsKind(is.Cond) && containsNode(is.Body, func(m ast.Node) bool { return m == ast.Node(rs) }) {
+							v2 = fmt.Sprintf("%s: the remaining-edge test runs only under a condition on the kind argument (%s): for the other kind arguments the adjacency of a pair that is still linked is dropped", w.pos(is.Pos()), types.ExprString(is.Cond))
+						}
+					}
+					ast.Inspect(rs.Body, func(m ast.Node) bool {
+						if is, ok := m.(*ast.IfStmt); ok && mentionsKind(is.Cond) {
+							v2 = fmt.Sprintf("%s: the remaining-edge test is conditioned on the kind argument (%s): after RemoveEdge(from, to, &kind) an edge of another kind no longer keeps deps[from][to] / revDeps[to][from], so it stays among the source's outgoing edges but disappears from the target's incoming edges and from Parents()", w.pos(is.Pos()), types.ExprString(is.Cond))
+						}
+						return true
+					})
+					return true
+				})
+			}
+		}
 		o2 := r.add("C17.b", "guardedby", rmEdge+":adjacency-kept-while-linked", "deps/revDeps entries of a pair are dropped only when no edge of any kind links it any more", []string{rmEdge}, s2, v2)
 		o2.NonTrivial = true
 	}
